@@ -28,7 +28,7 @@ ASSUMPTIONS = [
     "fits that report failure on generated (non closed-form) models are skipped and counted",
     "bounds excess allowed 1e-12*(hi-lo+1); fixed values exact; objective 1e-8 relative",
 ]
-REQUIRED = ("fit_bounds", "fit_fixed", "fit_objective", "better_point_search", "closed_form", "config_matrix")
+REQUIRED = ("fit_bounds", "fit_fixed", "fit_objective", "better_point_search", "closed_form", "config_matrix", "nested_fits_observed")
 
 MARGIN = {"scipy": 1e-4, "minuit": 2e-2}  # >= 10x the largest gap seen on clean code (4e-7 / 1.3e-3 at MINUIT default tolerance 0.1)
 
@@ -254,6 +254,32 @@ def check_closed_form(case, shard, mon, rng):
     shard.nontrivial(kind, case["data"], case.get("poi_bounds"), pyhf.tensorlib.name, at_bound)
 
 
+def check_nested(case, shard, mon):
+    """Leave the passive monitor on while pyhf fits on its own behalf: every fit made inside test
+    statistics, Asimov generation, toys and limit scans is judged by (a)-(c)."""
+    import numpy as np
+    import pyhf
+    from pyhf import exceptions as E
+
+    model = pyhf.Model(copy.deepcopy(case["spec"]), poi_name="mu")
+    data = case["data"] + list(model.config.auxdata)
+    mon.context = {"spec": case["spec"], "nested": True}
+    before = mon.nfits
+    try:
+        pyhf.infer.hypotest(1.0, data, model, test_stat="qtilde", return_expected_set=True)
+        pyhf.infer.hypotest(0.0, data, model, test_stat="q0")
+        np.random.seed(case["seed"] % (2 ** 31))
+        pyhf.infer.hypotest(1.0, data, model, calctype="toybased", ntoys=6, track_progress=False)
+        if case.get("limit"):
+            pyhf.infer.intervals.upper_limits.upper_limit(data, model, scan=np.linspace(0.1, 6.0, 6))
+    except E.FailedMinimization:
+        shard.skip("fit reported failure (nested workload)")
+    except Exception as e:
+        shard.skip(f"nested workload raised {type(e).__name__}: {str(e)[:120]} [{pyhf.tensorlib.name}]")
+    shard.counters["nested_fits_observed"] += mon.nfits - before
+    shard.covered("nested_callers", "hypotest(asymptotics), hypotest(q0), hypotest(toybased), upper_limit(grid)")
+
+
 def make_generated(rng, optimizers):
     import pyhf
 
@@ -326,6 +352,10 @@ def run_shard(shard):
         check_generated(case, shard, mon, rng)
         if k == 0 and shard.index == 0:
             shard.sample(case)
+    for k in range(p.get("n_nested", 2 if p["backend"] == "numpy" else 1)):
+        case = make_generated(rng, opts)
+        case["limit"] = k == 0
+        check_nested(case, shard, mon)
     shard.counters["fits_observed"] += mon.nfits
 
 
